@@ -627,3 +627,62 @@ def rf36(run):
                               'in such registers across a call are treated wrongly by this pass'
                               % (f.name, ', '.join(g.name for g, _ in scans if g is not f), role), line=f.line)
     run.min_instances(rule, 8)
+
+
+# ---------------------------------------------------------------------------------------------
+# RF43: a reused spill location lies completely inside the slots that exist
+# ---------------------------------------------------------------------------------------------
+
+def rf43(run):
+    import re
+    rule = 'RF43'
+    run.rule(rule, 'get_stack_loc: the statement that selects an existing stack location for reuse (best_loc = loc) is reached only when '
+                   '(a) the last slot the value occupies, target_nth_loc (loc, type, slots_num - 1), has been compared against the number '
+                   'of allocated slots (func_stack_slots_num + MAX_HARD_REG) and lies inside, and (b) the scan of all slots_num slots '
+                   'against conflict_locs ran to completion; otherwise a multi-slot value (long double) takes a slot that does not exist '
+                   'yet and the next new slot overlaps it')
+    gen = run.tu('gen')
+    f = gen.func('get_stack_loc')
+    run.functions_analysed.add(('gen', f.name))
+    from rf_proto import dominating_conditions
+    cfg = f.cfg
+    sel = [x for x in f.walk() if x['k'] == 'BinaryOperator' and x['op'] == '=' and F.src(F.strip(x['c'][0])) == 'best_loc'
+           and F.src(F.strip(x['c'][1])) == 'loc']
+    if not sel:
+        raise F.AnalysisBroken('get_stack_loc: `best_loc = loc` not found')
+    # names that stand for the allocated-slot bound
+    bound_names = {'func_stack_slots_num'}
+    for x in f.walk():
+        if x['k'] == 'DeclStmt':
+            for d in x['decls']:
+                if d.get('init') is not None and 'func_stack_slots_num' in F.src(d['init']):
+                    bound_names.add(d['n'])
+    for x in sel:
+        b = cfg.block_of(x)
+        conds = dominating_conditions(cfg, b)
+        inside = False
+        for c, t in conds:
+            c2 = c.replace(' ', '')
+            if 'target_nth_loc(loc,type,(slots_num-1))' not in c2 and 'target_nth_loc(loc,type,slots_num-1)' not in c2:
+                continue
+            if not any(bn in c for bn in bound_names):
+                continue
+            m = re.search(r'target_nth_loc\(loc,type,\(?slots_num-1\)?\)\)*(<=|>=|<|>)', c2)
+            if not m:
+                continue
+            op = m.group(1)
+            if (op == '>' and not t) or (op in ('<=', '<') and t):
+                inside = True
+        scanned = any(c.replace(' ', '') == '(k<slots_num)' and not t for c, t in conds) and any(
+            y['k'] == 'CallExpr' and y.get('callee') == 'bitmap_bit_p' and 'conflict_locs' in F.src(y) and 'target_nth_loc' in F.src(F.strip(F.call_args(y)[1]))
+            or (y['k'] == 'CallExpr' and y.get('callee') == 'bitmap_bit_p' and 'conflict_locs' in F.src(y)) for y in f.walk())
+        ok = inside and scanned
+        run.ob(rule, ('reuse', x['l']), ok, {'selection at line': x['l'], 'last slot bounded by the allocated slots': inside,
+                                            'all slots checked against conflicts': scanned, 'dominating tests': [c for c, t in conds][:6]})
+        if not ok:
+            run.violation(rule, f, 'reuse of an existing stack location',
+                          'get_stack_loc selects loc for reuse %s: a two-slot value can be given the last existing slot plus one that is not '
+                          'allocated yet; the next get_new_stack_slot hands that slot to another live value'
+                          % ('without testing that its last slot target_nth_loc (loc, type, slots_num - 1) is an allocated one' if not inside
+                             else 'without a completed conflict scan of all its slots'), line=x['l'])
+    run.min_instances(rule, 1)
